@@ -27,9 +27,13 @@ MANIFEST = {
             "model, loss, optimiser, k >= 1 and run length: a window of k iterations from a boundary performs exactly one "
             "optimiser step, on (1/k) * sum of the k batch gradients taken at the window's parameters (any Q-module of "
             "gradients); k = 1 gives one step per batch; last_epoch advances once per iteration; delivered + pending = "
-            "initial + all backward gradients at every moment (nothing dropped or doubled); the run is a fold of window steps. "
-            "Tied to the code by the translated statement table + guards (bridge by decide/omega) and by exact differential "
-            "runs of the REAL Engine.train on a toy problem.",
+            "initial + all backward gradients at every moment (nothing dropped or doubled); the run is a fold of window steps; "
+            "additional models in self.models receive the mean as well (gradient space G x H); trailing iterations after the "
+            "last complete window stay pending; OOM recovery and the scaler update are part of the machine. "
+            "Tied to the code by the translated statement table + guards + divided/clipped parameter scope (bridge by "
+            "decide/omega), a translated table of how each of the 24 engine classes back-propagates its loss (decided "
+            "wfEngines), exact differential runs of the REAL Engine.train on a toy problem (incl. an additional model and "
+            "OOM skips) and bit-exact accumulation checks through real Unet2d / RIM / EndToEndVarNet engines.",
     "note": "Resume inside an accumulation window is a finding (key resume-mid-window): checkpoints do not store gradients, the "
             "first step after such a resume uses (1/k) * sum of only the post-resume batches (theorem "
             "resume_mid_window_first_step, witness resume_mid_window_violates); resume at a window boundary is proved equal. "
@@ -52,8 +56,10 @@ ASSUMPTIONS = [
     "Adam and gradient clipping are compared with an independently computed reference under 1e-9 (float64), not exactly",
     "mixed precision (GradScaler enabled) is out of scope",
 ]
-RULE = ("toy linear model with L1 sum loss (integer-valued gradients), k in 1..4, 1..12 iterations, batch sizes 1..4, SGD with "
-        "momentum 0 or 1/2, WarmupMultiStepLR with dyadic parameters; non-trivial = k >= 2 and at least one completed window; "
+RULE = ("toy linear model with L1 sum loss (integer-valued gradients), k in 1..4, 1..12 iterations (not only multiples of k), "
+        "batch sizes 1..4, SGD with momentum 0 or 1/2, WarmupMultiStepLR with dyadic parameters, with/without an additional "
+        "model, with/without OOM-skipped iterations; real Unet2d / RIM / EndToEndVarNet engines on 8x8 two-coil data, k in 1..4, "
+        "SGD/Adam; non-trivial = k >= 2 and at least one completed window; "
         "distinct = distinct protocol line / oracle configuration")
 PENDING_FINDINGS: list[str] = []     # `resume-mid-window` is listed as known; `additional-models-not-divided` was repaired
 
@@ -747,8 +753,21 @@ def check_resume(c, t):
     return full, a, b
 
 
+OBSERVATIONS = [
+    "OOM recovery (`zero_grad(); continue`) consumes the iteration index without lr_scheduler.step(): last_epoch lags one "
+    "behind iter_idx per skipped iteration, and a skip inside an accumulation window discards the window's earlier "
+    "batches while the divisor stays gradient_steps (theorems oom_skip_schedule_lags, oom_skip_mid_window; model = code "
+    "checked on every run) — outside the property's quantifier",
+    "iterations after the last complete window are never applied (num_iterations % gradient_steps batches are computed "
+    "and dropped; theorem trailing_iterations_pending)",
+    "RIMEngine._do_iteration calls backward after its `for _ in range(cfg.model.steps)` loop: with model.steps > 1 only "
+    "the last step's loss is back-propagated (engine table: inLoop = false, retainGraph = true)",
+]
+
+
 def oracle(ctx: Ctx, deep: bool = False):
     rng = ctx.rng
+    ctx.notes.extend("observation: " + o for o in OBSERVATIONS)
     # (1) every run of the correspondence stream against the exact reference
     runs = list(ctx.__dict__.get("c16_runs", []))
     extra = ctx.budget(0, 200) + (150 if deep else 0)
